@@ -149,6 +149,23 @@ def family(tier, seed):
             if r not in irreps:
                 irreps[r] = irs[k]
         fam.append(C(f"V{t}", f, irreps, tier="quick" if t < 2 else "thorough"))
+    # filter_ir_mid: seeded subsets of the irreps that can occur on the way (numeric oracles only: symmetry of every row,
+    # orthonormality, equivariance, forward = einsum).  A filter may leave a single candidate path per output irrep.
+    mid_formulas = [("ijk=jik=ikj", dict(i="1o")), ("ijk=-jik=-ikj", dict(i="1o")), ("ijk=jik", dict(i="1o", k="1o")),
+                    ("ijk=jik=ikj", dict(i="1e")), ("ijkl=jikl=ikjl=ijlk", dict(i="1o"))]
+    n_mid = 16 if tier == "quick" else 60
+
+    def sub(pool):
+        return rng.sample(pool, rng.randint(1, len(pool)))
+    for t in range(n_mid):
+        f, irs = mid_formulas[t % 4] if tier == "quick" or t % 5 else mid_formulas[4]
+        odd = "o" in irs["i"]
+        # irreps that can occur after 2, 3 (and 4) factors of l = 1; a non-empty subset of each stage
+        stages = [["0e", "1e", "2e"], ["0o", "1o", "2o", "3o"] if odd else ["0e", "1e", "2e", "3e"]]
+        if len(f.split("=")[0].replace("-", "")) == 4:
+            stages.append(["0e", "1e", "2e", "3e", "4e"])
+        filt = sorted(set(x for st in stages for x in sub(st)))
+        fam.append(C(f"FM{t}", f, irs, filter_ir_mid=filt, tier="quick", exact=False, prog=False))
     if tier == "quick":
         fam = [c for c in fam if c.tier == "quick"]
     only = os.environ.get("C10_FAMILY")      # debugging / mutation tests: restrict the family to the named configurations
